@@ -18,7 +18,7 @@ pub fn def() -> PropDef {
         check,
         genome_len: 700,
         quick_cases: 12_000,
-        thorough_cases: 600_000,
+        thorough_cases: 400_000,
         rule: "case = (g, h, a, b): g and h are small expression trees (depth <= 3) over pairing values of arbitrary inputs (any entry point), products, powers and inverses, with h sometimes built to equal g by a different route; a, b from the scalar boundary classes (0, 1, r-1, ...); oracle (i): the 384-byte encodings are parsed into F_q[w]/(w^12+2) and g*h, inverse(g), g^a are recomputed by schoolbook multiplication / Gaussian elimination / plain square-and-multiply and compared byte for byte; (ii) the group and exponent laws on library values; (iii) == iff encodings equal iff discrete logs equal, every 32-byte limb < q, g^(r-1) g = 1; non-trivial = g != h, neither is one, exponents not in {0,1}; distinct by the construction of (g, h, a, b)",
         required: crate::runner::req(&["node:leaf", "node:mul", "node:pow", "node:inverse", "pair:equal-by-construction", "pair:independent", "g:one", "a:boundary"]),
         enumerate: None,
